@@ -227,9 +227,17 @@ fn norm_case(r: usize, c: usize, pat: usize) -> Result<(), String> {
     // integer-valued f64 data with mixed signs: column/row sums and max are exact
     // patterns 2 and 3: pattern 0 scaled exactly by 2^600 / 2^-600 (squares and cubes leave the double range; every norm
     // scales exactly, so the textbook value is representable)
+    // patterns 4..9: scales at which the squares / cubes land in the SUBNORMAL band (2^-530, 2^-515: squares; 2^-352, 2^-345:
+    // cubes) or just below overflow (2^511, 2^340): a sum of powers that is positive and finite there is not yet accurate
     let big = match pat {
         2 => 2f64.powi(600),
         3 => 2f64.powi(-600),
+        4 => 2f64.powi(-530),
+        5 => 2f64.powi(-515),
+        6 => 2f64.powi(-352),
+        7 => 2f64.powi(-345),
+        8 => 2f64.powi(511),
+        9 => 2f64.powi(340),
         _ => 1.0,
     };
     let v = |i: usize, j: usize| -> f64 {
@@ -651,11 +659,11 @@ fn main() {
         );
     }
     ctx.lattice(
-        "norms on integer-valued f64, shapes 0..=8 x 4 patterns (two of them scaled by 2^600 / 2^-600)",
-        n * n * 4,
-        |idx| format!("r={} c={} pattern={}", idx / 36, (idx / 4) % 9, idx % 4),
+        "norms on integer-valued f64, shapes 0..=8 x 10 patterns (eight of them scaled by 2^+-600, 2^-530, 2^-515, 2^-352, 2^-345, 2^511, 2^340)",
+        n * n * 10,
+        |idx| format!("r={} c={} pattern={}", idx / 90, (idx / 10) % 9, idx % 10),
         |idx, acc| {
-            let (r, c, p) = ((idx / 36) as usize, ((idx / 4) % 9) as usize, (idx % 4) as usize);
+            let (r, c, p) = ((idx / 90) as usize, ((idx / 10) % 9) as usize, (idx % 10) as usize);
             if r != c {
                 acc.nontriv("nonsquare");
             }
